@@ -207,12 +207,11 @@ class BeamStatic(Scn):
         return Simulations.Beam(mesh, Models.Beam.BeamStructure([beam]))
 
     def replacement(self, key):
-        from EasyFEA.FEM.Elems._beam import _Construct_Euler_Bernoulli_mesh
-
+        # a plain line mesh tagged with the beam's name, as the constructor takes it (the public mesh setter converts it to beam elements)
         mesh = MESHES[key]().build()
         for g in mesh.Get_list_groupElem():
             g.Set_Tag(g.nodes, self.beam.name)
-        return _Construct_Euler_Bernoulli_mesh(mesh)
+        return mesh
 
     def load(self, simu, key, level):
         simu.Bc_Init()
